@@ -49,8 +49,14 @@ func (self ValueString) Fields() (map[string]*Value, *Interrupt) {
 		}),
 		"substring": NewValueBuiltinFunction(func(executor Executor, cancelCtx *context.Context, span errors.Span, args ...Value) (*Value, *Interrupt) {
 			upper := args[0].(ValueInt).Inner
+			length := int64(len(self.Inner))
 
-			if upper < 0 || upper >= int64(len(self.Inner)) {
+			// A negative bound is counted from the end, like list indices
+			if upper < 0 {
+				upper += length
+			}
+
+			if upper < 0 || upper >= length {
 				return nil, NewThrowInterrupt(span, "index out of range")
 			}
 
